@@ -1,6 +1,6 @@
 """C11 -- concurrent senders never corrupt the wire."""
 from __future__ import print_function
-from . import core, fam, conc
+from . import core, fam, conc, ref6455, ref7692
 
 
 def program_sets(tier):
@@ -47,7 +47,17 @@ def run(rep, info, model, tier, seed):
     ba = bytearray(b"heartbeat " * 4)
     shared_buf = [([[("send", "binary", ba, False, 1, bytes(ba))], [("send", "binary", ba, False, 2, bytes(ba))]], None),
                   ([[("send", "binary", ba, False, 1, bytes(ba)), ("send", "ping", b"pp", False, 90)], [("send", "binary", ba, False, 2, bytes(ba))]], None)]
-    conc.run_programs_lines(rep, "C11", "C11:line-level", line_sets + shared_buf, limit=(150 if tier == "quick" else 1500), which="c11")
+    # the event-loop thread receives compressed messages (inflater, with and without a reset per message) while another thread
+    # is inside a compressed send: the two directions have nothing to do with each other
+    recv_sets = []
+    for mode in ("server_no_takeover", "takeover", "no_takeover"):
+        sp = ref7692.Peer(15, 15, mode == "server_no_takeover", False)     # the server's compressor for this connection
+        m1 = ref6455.encode_frame(1, sp.compress(b"from the server, " * 3), rsv=4)
+        m2 = ref6455.encode_frame(2, sp.compress(b"from the server, again " * 2), rsv=4)
+        text = b"client text client text client text"
+        recv_sets.append(([[("send", "text", text, True, 1)], [("server_msg", "data", m1), ("server_msg", "data", m2)]], mode))
+        recv_sets.append(([[("send", "binary", b"\x00\x01" * 30, True, 1), ("send", "text", text, True, 2)], [("server_msg", "data", m1)]], mode))
+    conc.run_programs_lines(rep, "C11", "C11:line-level", line_sets + shared_buf + recv_sets, limit=(150 if tier == "quick" else 1500), which="c11")
     conc.run_programs_fresh(rep, "C11:first-execution", line_sets[:2] if tier == "quick" else line_sets, per=(24 if tier == "quick" else 80), which="c11")
     if not proof_ok and not rep.violations:
         rep.broken("proof obligation props/C11.v no longer checks: %s" % (rep.coq_failure,))
@@ -61,7 +71,7 @@ def replay(body):
     def arg(c, i, x):
         if isinstance(x, dict) and "shared_bytearray" in x:
             return shared.setdefault(x["shared_bytearray"], bytearray(bytes.fromhex(x["shared_bytearray"])))
-        if isinstance(x, str) and i in (2, 5) and c[0] in ("send", "close", "server_close"):
+        if isinstance(x, str) and i in (2, 5) and c[0] in ("send", "close", "server_close", "server_msg"):
             return bytes.fromhex(x)
         return x
     progs = [[tuple(arg(c, i, x) for i, x in enumerate(c)) for c in p] for p in sc["programs"]]
